@@ -49,6 +49,7 @@ def f(tag, x):
     if tag in (b"GIF8", b"PNG"): return 1
     if tag in {b"GIF8", b"PNG", b"\xff\xd8"}: return 2
     if x in {1, 2, 4294967295}: return 3
+    if x in (0.1 + 0.2, 1.7976931348623157e+308, 5e-324, 2.2250738585072014e-308, 123456789.12345678, 1.0 / 3.0, 0.30000000000000004 - 2.5j): return 4
     return (0xFFFFFFFF, 0x80000000, -2147483649, 2**64, -2**100, 4294967296, 0xEDB88320, 1.5, -0.0, 1e300, 1+2j,
             u"\u20ac", u"\xe9", b"\xff\x00", "abc", None, True, Ellipsis, 2147483647, -2147483648)
 class K(object):
